@@ -18,8 +18,15 @@ RULE = ('real pdb2sql databases built from generated ATOM lines (1-30 atoms, cha
         'list, scalar) / no_name / no_resSeq / no_chainID alone, combined with a positive key and with each other; a separate '
         'stream of empty selections), angles in [-4pi, 4pi] (generic stream kept away from multiples of pi, separate stream at multiples of pi/2), '
         'Euler triples with all three angles non-zero, random unit axes and coordinate axes, proper random matrices; the xyz-level '
-        'functions additionally with explicit centres. get(\'*\') after the sequence is compared with the Lean model (the code\'s matrices) '
-        'and with the Lean Spec (vector-form isometries through the centroid of the selection). A case is non-trivial when distinct by '
+        'functions additionally with explicit centres. A further family puts the angles AT AND NEAR the special values: k*pi/2 (all k with '
+        '|k| <= 8; 0, +-pi/2, +-pi, +-2pi, +-4pi on a full grid) exactly and displaced to either side by 1e-9 .. 5e-3 rad (listed decades and '
+        'log-uniform), for rot_axis, for Euler triples in which three, two or one of the angles are such values (mixed, or all near whole '
+        'turns / half turns / quarter turns, or the same value three times), in compositions with generic steps, and for the xyz-level functions. '
+        'get(\'*\') after the sequence is compared with the Lean model (the code\'s matrices) '
+        'and with the Lean Spec (vector-form isometries through the centroid of the selection). Histories (extra checks): 20-200 (thorough: 500) '
+        'equal steps of rot_axis / rot_euler / translation on one selection (optionally with the complement translated in between) are compared '
+        'per atom with ONE accumulated transform evaluated independently (math.cos/sin, vector form): N rotations by delta = one by N*delta. '
+        'A case is non-trivial when distinct by '
         '(operation, kinds of the steps, kinds of the selections, error/no error).')
 ASSUMPTIONS = ['np.cos / np.sin values are handed to the model as exact rationals; they satisfy c^2+s^2=1 only to 1e-16 (float gap, not part of the algebraic theorems)',
                'SQLite stores and returns REAL columns bit-exactly; rows come back in rowID order (C03/C04)',
@@ -225,6 +232,49 @@ def make_step(rng, g, kind=None, angles='generic'):
     return {'kind': kind, 'mat': [float(x) for x in rand_rot(g).ravel()]}
 
 
+# ---- angles at and near the special values ------------------------------------------------------------------------------
+# The quantifier says "all angles in [-4pi, 4pi]".  A uniform draw from that interval essentially never comes within 1e-3 rad of a
+# multiple of pi/2, and the 'halfpi' stream hits the multiples only exactly; the neighbourhoods (where cos or sin is flat, where a
+# rotation is almost -- but not -- the identity / a half turn / a quarter turn) are a family of their own.
+SPECIAL_K = [0, 1, -1, 2, -2, 4, -4, 8, -8]          # 0, +-pi/2, +-pi, +-2pi, +-4pi as multiples of pi/2
+OFFSETS = [1e-9, 1e-8, 1e-7, 1e-6, 1e-5, 1e-4, 5e-4, 1e-3, 2.5e-3, 4e-3, 5e-3]
+ANGLE_CLASSES = {'turn': [0, 4, -4, 8, -8], 'half': [2, -2, 6, -6], 'quarter': [1, -1, 3, -3, 5, -5, 7, -7]}
+
+
+def near_multiple(k, off):
+    """k*pi/2 + off, the offset mirrored to the other side if it would leave [-4pi, 4pi]"""
+    a = k * math.pi / 2 + off
+    if abs(a) > 4 * math.pi:
+        a = k * math.pi / 2 - off
+    return a
+
+
+def special_angle(rng, ks=None):
+    """a multiple of pi/2 in [-4pi, 4pi], hit exactly (15%) or displaced to either side by 1e-9 .. 5e-3 rad (listed decades or log-uniform)"""
+    if ks is None:
+        ks = SPECIAL_K if rng.random() < 0.7 else list(range(-8, 9))
+    k = rng.choice(ks)
+    r = rng.random()
+    if r < 0.15:
+        off = 0.0
+    elif r < 0.6:
+        off = rng.choice([-1, 1]) * rng.choice(OFFSETS)
+    else:
+        off = rng.choice([-1, 1]) * 10 ** rng.uniform(-9, math.log10(5e-3))
+    return near_multiple(k, off)
+
+
+def special_step(rng, g, kind, nspecial=3, cls=None):
+    """rot_axis at/near a special angle; rot_euler with `nspecial` (3, 2 or 1) of its angles at/near special values (the others
+    generic).  cls = 'turn' / 'half' / 'quarter' draws all the special angles of the step from one class of multiples, None mixes."""
+    ks = ANGLE_CLASSES[cls] if cls else None
+    if kind == 'rot_axis':
+        return {'kind': kind, 'axis': unit_axis(rng, g), 'angle': special_angle(rng, ks)}
+    pos = rng.sample(range(3), nspecial)
+    t = [special_angle(rng, ks) if i in pos else generic_angle(rng) for i in range(3)]
+    return {'kind': 'rot_euler', 'alpha': t[0], 'beta': t[1], 'gamma': t[2]}
+
+
 def step_json(st, mask=None):
     """the step as the drivers read it: exact rationals, the trig values NumPy produces"""
     d = {'kind': st['kind']}
@@ -302,6 +352,58 @@ def cases(ctx):
         out.append({'op': 'rotate_xyz', 'X': X, 'step': st, 'center': center, 'center_kind': ck, 'family': 'xyz-' + ck})
     for seed in [0, 1, 2, 3, 7, 42, 2**31 - 1] + [rng.randrange(2**32) for _ in range(ctx.scale(20, 2000))]:
         out.append({'op': 'axis_angle', 'seed': seed, 'family': 'random-axis'})
+    # angles at and near the special values (appended last so that the streams above are what they were).  Tables of >= 3 atoms and
+    # selections of several atoms: a rotation by 1e-4 rad moves an atom 30 A from the axis by 3e-3 A, the tolerance is 1e-9 * scale.
+    wide = ['all', 'chain', 'rowlist', 'no_chain', 'chains_all', 'rowlist_shuffled', 'no_rowlist', 'no_name', 'all']
+
+    def special_case(st, family, sk=None, n=None):
+        lines = make_lines(rng, n or rng.choice([3, 5, 8, 13, 30]))
+        rows = pdb2sql(lines).get('*')
+        sk, kw, mask = selection(rng, rows, sk or rng.choice(wide))
+        st.update({'selkind': sk, 'kwargs': kw, 'mask': mask})
+        return {'op': 'transform_seq', 'lines': lines, 'steps': [st], 'family': family}
+
+    # rot_axis: the full grid (special value) x (exact, each offset on both sides)
+    for k in (SPECIAL_K if not ctx.thorough else range(-8, 9)):
+        for off in [0.0] + [s * o for o in OFFSETS for s in (1, -1)]:
+            for _ in range(ctx.scale(1, 4)):
+                out.append(special_case({'kind': 'rot_axis', 'axis': unit_axis(rng, g), 'angle': near_multiple(k, off)}, 'special-axis-grid'))
+    for _ in range(ctx.scale(40, 1000)):
+        out.append(special_case(special_step(rng, g, 'rot_axis'), 'special-axis'))
+    # rot_euler: all three, two or one of the angles at/near special values; the special angles of a triple mixed, or all near whole
+    # turns, all near half turns, all near quarter turns
+    for nspecial in (3, 2, 1):
+        for cls in (None, 'turn', 'half', 'quarter'):
+            for _ in range(ctx.scale(12, 300)):
+                out.append(special_case(special_step(rng, g, 'rot_euler', nspecial, cls), f'special-euler-{nspecial}-{cls or "mixed"}'))
+    # the same offset in all three angles, on the grid
+    for k in SPECIAL_K:
+        for off in [s * o for o in OFFSETS[::2] for s in (1, -1)]:
+            a = near_multiple(k, off)
+            out.append(special_case({'kind': 'rot_euler', 'alpha': a, 'beta': a, 'gamma': a}, 'special-euler-equal'))
+    # compositions in which special-angle steps are mixed with generic steps
+    for _ in range(ctx.scale(40, 800)):
+        lines = make_lines(rng, rng.choice([3, 5, 8, 13, 30]))
+        rows = pdb2sql(lines).get('*')
+        steps = []
+        for k in range(rng.randint(2, 5)):
+            kind = rng.choice(['rot_axis', 'rot_euler', 'rot_axis', 'rot_euler', 'translation', 'rot_mat'])
+            if kind in ('rot_axis', 'rot_euler') and (k == 0 or rng.random() < 0.7):
+                st = special_step(rng, g, kind, rng.choice([3, 3, 2, 1]), rng.choice([None, 'turn', 'half', 'quarter']))
+            else:
+                st = make_step(rng, g, kind, 'generic')
+            sk, kw, mask = selection(rng, rows, rng.choice(wide + ['single', 'name']))
+            st.update({'selkind': sk, 'kwargs': kw, 'mask': mask})
+            steps.append(st)
+        out.append({'op': 'transform_seq', 'lines': lines, 'steps': steps, 'family': 'composition-special'})
+    # xyz-level functions at the special angles
+    for _ in range(ctx.scale(60, 1000)):
+        n = rng.choice([2, 5, 20])
+        X = [[round(rng.uniform(-80, 80), 3) for _ in range(3)] for _ in range(n)]
+        st = special_step(rng, g, rng.choice(['rot_axis', 'rot_euler']), rng.choice([3, 2, 1]), rng.choice([None, 'turn', 'half', 'quarter']))
+        ck = rng.choice(['none', 'list', 'array', 'origin'])
+        center = None if ck == 'none' else ([0.0, 0.0, 0.0] if ck == 'origin' else [round(rng.uniform(-30, 30), 3) for _ in range(3)])
+        out.append({'op': 'rotate_xyz', 'X': X, 'step': st, 'center': center, 'center_kind': ck, 'family': 'xyz-special-' + ck})
     return out
 
 
@@ -586,4 +688,128 @@ def extra_checks(ctx):
     res.append({'name': f'inverse transform restores the coordinates to 1e-9 on {n_inv} random transforms', 'ok': bad_inv is None, 'case': bad_inv,
                 'detail': 'applying the inverse transform to the same selection did not restore the table'})
     res.append({'name': 'distances and handedness within the moved set preserved', 'ok': bad_iso is None, 'case': bad_iso, 'detail': ''})
+    res += history_checks(ctx, rng, g)
     return res
+
+
+# ----------------------------------------------------------------------------------------------
+# histories of many equal steps ("all finite compositions of such transforms")
+# ----------------------------------------------------------------------------------------------
+
+def rodrigues_ref(axis, angle):
+    """the property's rotation, written independently of the library and of NumPy's trig:  v -> v cos + (u x v) sin + u (u.v)(1 - cos)"""
+    u = np.array(axis, float)
+    c, s = math.cos(angle), math.sin(angle)
+    K = np.array([[0.0, -u[2], u[1]], [u[2], 0.0, -u[0]], [-u[1], u[0], 0.0]])
+    return c * np.eye(3) + s * K + (1.0 - c) * np.outer(u, u)
+
+
+def euler_ref(alpha, beta, gamma):
+    """about x by alpha, then about y by beta, then about z by gamma"""
+    return rodrigues_ref([0, 0, 1], gamma) @ rodrigues_ref([0, 1, 0], beta) @ rodrigues_ref([1, 0, 0], alpha)
+
+
+def run_history(lines, st, kw, mask, N, other=None):
+    """N times the step `st` on the selection `kw` (mask = the rows it means); every `other['every']`-th step the complement is
+    translated by other['vect'].  Rotations about the centroid of the selection leave that centroid where it is, so N rotations by
+    delta about one axis are ONE rotation by N*delta about it, and N equal Euler steps are the N-th power of the step's matrix;
+    N translations by v are one by N*v.  Returns None or a description of the first disagreement; never raises."""
+    try:
+        db = pdb2sql(lines)
+        rows0 = db.get('*')
+        sel = [i for i, m in enumerate(mask) if m]
+        comp = [i for i, m in enumerate(mask) if not m]
+        step = dict(st, kwargs=kw)
+        n_other = 0
+        for k in range(N):
+            apply_real(db, step)
+            if other and comp and (k + 1) % other['every'] == 0:
+                apply_real(db, {'kind': 'translation', 'vect': other['vect'], 'kwargs': {'rowID': comp}})
+                n_other += 1
+        rows1 = db.get('*')
+        if len(rows1) != len(rows0):
+            return {'what': f'row count {len(rows0)} -> {len(rows1)}'}
+        X0 = np.array([r[7:10] for r in rows0], float)
+        want = X0.copy()
+        if st['kind'] == 'translation':
+            want[sel] = X0[sel] + N * np.array(st['vect'], float)
+        else:
+            if st['kind'] == 'rot_axis':
+                R = rodrigues_ref(st['axis'], N * st['angle'])
+            else:
+                R = np.linalg.matrix_power(euler_ref(st['alpha'], st['beta'], st['gamma']), N)
+            ctr = X0[sel].mean(0)
+            want[sel] = (X0[sel] - ctr) @ R.T + ctr
+        if n_other:
+            want[comp] = X0[comp] + n_other * np.array(other['vect'], float)
+        scale = max(1.0, float(np.max(np.abs(X0))), float(np.max(np.abs(want))))
+        for i, (r0, r1) in enumerate(zip(rows0, rows1)):
+            if tuple(r0[:7]) != tuple(r1[:7]) or tuple(r0[10:]) != tuple(r1[10:]):
+                return {'what': f'non-coordinate attributes of row {i} changed', 'before': r0, 'after': r1}
+            got = [float(v) for v in r1[7:10]]
+            if i in comp and not n_other:
+                if got != [float(v) for v in r0[7:10]]:
+                    return {'what': f'unselected row {i} moved', 'before': r0[7:10], 'after': r1[7:10]}
+            elif not all(abs(a - b) <= 1e-9 * scale for a, b in zip(got, want[i])):      # NaN is a disagreement too
+                return {'what': f'row {i} is at {got}, the accumulated transform puts it at {[float(v) for v in want[i]]}'}
+        return None
+    except Exception as e:
+        return {'what': f'raised {type(e).__name__}: {e}'}
+
+
+def history_checks(ctx, rng, g):
+    wide = ['all', 'chain', 'rowlist', 'no_chain', 'chains_all', 'rowlist_shuffled', 'no_rowlist', 'no_name', 'all']
+    ex, ey, ez = [1.0, 0.0, 0.0], [0.0, 1.0, 0.0], [0.0, 0.0, 1.0]
+    third = [2.0 / 3.0, -1.0 / 3.0, 2.0 / 3.0]
+    plans = [('rot_axis', 200, {'axis': third, 'angle': 0.004}), ('rot_axis', 100, {'axis': ez, 'angle': -0.003}),
+             ('rot_axis', 50, {'axis': ey, 'angle': 2 * math.pi / 50}), ('rot_axis', 64, {'axis': third, 'angle': 2 * math.pi + 1e-3}),
+             ('rot_axis', 40, {'axis': ex, 'angle': math.pi / 2 - 1e-4}), ('rot_axis', 30, {'axis': third, 'angle': 0.7}),
+             ('rot_euler', 100, {'alpha': 0.003, 'beta': 0.0, 'gamma': 0.0}), ('rot_euler', 100, {'alpha': 0.002, 'beta': -0.003, 'gamma': 0.004}),
+             ('rot_euler', 60, {'alpha': 2 * math.pi - 0.002, 'beta': 0.001, 'gamma': -4 * math.pi + 0.003}),
+             ('rot_euler', 30, {'alpha': 0.3, 'beta': -0.2, 'gamma': 0.5}),
+             ('translation', 200, {'vect': [0.004, -0.003, 0.001]}), ('translation', 100, {'vect': [1e-6, 0.0, -2.5]})]
+
+    def small(lo=1e-4, hi=5e-3):
+        return rng.choice([-1, 1]) * 10 ** rng.uniform(math.log10(lo), math.log10(hi))
+
+    def step_angle(N):
+        r = rng.random()
+        if r < 0.5:
+            return small()
+        if r < 0.7:
+            return rng.choice([-1, 1]) * rng.uniform(0.01, 0.3)
+        if r < 0.8:
+            return rng.choice([-2, -1, 1, 2]) * 2 * math.pi / N          # the history closes: N steps are whole turns
+        return special_angle(rng)
+    for _ in range(ctx.scale(40, 1200)):
+        kind = rng.choice(['rot_axis', 'rot_axis', 'rot_axis', 'rot_euler', 'rot_euler', 'translation'])
+        N = rng.choice([20, 50, 100, 200] + ([500] if ctx.thorough else []))
+        if kind == 'rot_axis':
+            p = {'axis': unit_axis(rng, g), 'angle': step_angle(N)}
+        elif kind == 'rot_euler':
+            t = [step_angle(N) for _ in range(3)]
+            for i in rng.sample(range(3), rng.choice([0, 0, 1, 2])):
+                t[i] = 0.0
+            p = {'alpha': t[0], 'beta': t[1], 'gamma': t[2]}
+        else:
+            p = {'vect': [round(rng.uniform(-0.5, 0.5), rng.choice([3, 6, 9])) for _ in range(3)]}
+        plans.append((kind, N, p))
+    first, count = {}, {}
+    for j, (kind, N, p) in enumerate(plans):
+        lines = make_lines(rng, rng.choice([3, 5, 8, 13, 30]))
+        rows = pdb2sql(lines).get('*')
+        sk, kw, mask = selection(rng, rows, rng.choice(wide))
+        other = {'every': rng.choice([1, 7, 10]), 'vect': [round(rng.uniform(-2, 2), 3) for _ in range(3)]} if rng.random() < 0.3 else None
+        st = dict(p, kind=kind)
+        bad = run_history(lines, st, kw, mask, N, other)
+        count[kind] = count.get(kind, 0) + 1
+        if bad is not None and kind not in first:
+            first[kind] = dict(bad, lines=lines, step=st, times=N, kwargs=kw, selkind=sk, complement_translated=other)
+    out = []
+    for kind, what in (('rot_axis', 'N rotations by delta about one axis are one rotation by N*delta'),
+                       ('rot_euler', 'N equal Euler steps are the N-th power of the step (x by alpha, then y by beta, then z by gamma)'),
+                       ('translation', 'N translations by v are one translation by N*v')):
+        out.append({'name': f'history of many small steps: {what}, to 1e-9 of the coordinate scale, per atom ({count.get(kind, 0)} histories of 20-{ctx.scale(200, 500)} steps)',
+                    'ok': kind not in first, 'case': first.get(kind),
+                    'detail': (first[kind]['what'] if kind in first else '') + ' -- compared with an independent evaluation (math.cos/sin, vector form of the rotation) of the accumulated transform'})
+    return out
